@@ -117,6 +117,15 @@ def run_one(ferret, libs, files, mode):
         res["out"] = ((e.stdout or b"") + (e.stderr or b"")).decode("utf-8", "replace")
     res["wall"] = time.time() - t0
     res["artifact"] = os.path.exists(outp)
+    # everything the compilation left in the project directory besides its inputs (`.ferret` is the compiler's per-project cache
+    # directory, created for every project even on success)
+    left = []
+    for root_, dirs, fs in os.walk(d):
+        dirs[:] = [x for x in dirs if x != ".ferret"]
+        for f in fs:
+            rel = os.path.relpath(os.path.join(root_, f), d)
+            if rel not in files: left.append(rel)
+    res["leftover"] = sorted(left)
     res["dir"] = d
     # verdict against the property
     bad = []
@@ -138,6 +147,8 @@ def run_one(ferret, libs, files, mode):
                 bad.append("exit status %d without any error diagnostic: %s" % (rc, text[-200:].replace("\n", " | ")))
             if rc != 0 and res["artifact"]:
                 bad.append("output artefact left behind after a failed compilation")
+            elif rc != 0 and res["leftover"]:
+                bad.append("generated files left behind after a failed compilation: %s" % res["leftover"][:4])
             if rc == 0 and mode != "check" and not res["artifact"]:
                 bad.append("exit status 0 but no output artefact was produced")
             located, with_loc, badloc = 0, 0, []
